@@ -2,10 +2,10 @@
    Only pinned statements, [exact] proofs and [Print Assumptions].
    Proved: rooted and depth-limited exactness, the state NodeIter::root produces for a root given
    in any key representation, fusedness, and the capacity-error clause: for ANY target the iteration is the total-target iteration of
-   the pruned shape (Iter_cap.v).  ExactSize::len is decided by the correspondence and the Stage C
-   predicate only (see DESIGN.md: partial, with the recorded finding exactsize-capacity). *)
+   the pruned shape (Iter_cap.v).  ExactSize::len is exact for targets with capacity (Exact_proofs.v) and provably
+   not otherwise (C11_exact_size_capacity_refuted: the recorded finding exactsize-capacity). *)
 From Coq Require Import List NArith ZArith.
-From MC Require Import Str Packed Tree Tree_proofs NoPanic Transcode_proofs Odometer Iter_proofs Meta_proofs Iter_cap.
+From MC Require Import Str Packed Tree Tree_proofs NoPanic Transcode_proofs Odometer Iter_proofs Meta_proofs Iter_cap Exact_proofs.
 Import ListNotations.
 
 (* iteration rooted at the node with index path p (a leaf or an internal node), depth limit
@@ -118,6 +118,28 @@ Theorem C11_cap_example :
     [IItem (ItOk (RdText [47; 97]%N) 1 true); IItem (ItErr 1); IItem (ItOk (RdText [47; 98]%N) 1 true); IDone].
 Proof. exact ex_cap. Qed.
 
+(* ---- the exact-size wrapper: count starts at Metadata::count, minus one per Some -------------- *)
+Theorem C11_es_unfold : forall t tg s, es_next t tg s =
+  match iter_next t tg (fst s) with
+  | (IItem it, st') => (IItem it, (st', (snd s - 1)%N))
+  | (o, st') => (o, (st', snd s))
+  end.
+Proof. reflexivity. Qed.
+(* with enough capacity and D >= max_depth: the number of items is Metadata::count, after the i-th item
+   len() is the number of items still to come, after the end it is 0 *)
+Theorem C11_exact_size_correct : forall t tg D, NoPanic.wf t -> small t -> tg_total t tg ->
+  (m_depth (metadata t) <= N.of_nat D)%N ->
+  let L := length (enum D (shape_of t)) in
+  N.of_nat L = m_count (metadata t) /\
+  es_collect (S (S L)) t tg (es_new t D) =
+  combine (map (expect t tg D [] (shape_of t)) (enum D (shape_of t)) ++ [IDone])
+          (map (fun i => N.of_nat (L - S i)) (seq 0 L) ++ [0%N]).
+Proof. exact exact_size_correct. Qed.
+(* without capacity it over-counts: 4 announced, 3 yielded, 1 left after the end *)
+Theorem C11_exact_size_capacity_refuted :
+  map snd (es_collect 6 Iter_cap.ex_t (TgPath 47 4) (es_new Iter_cap.ex_t 2)) = [3; 2; 1; 1]%N.
+Proof. exact exact_size_capacity_refuted. Qed.
+
 Print Assumptions C11_iter_rooted.
 Print Assumptions C11_root_state.
 Print Assumptions C11_fused.
@@ -131,3 +153,6 @@ Print Assumptions C11_iter_complete_cap.
 Print Assumptions C11_expect_cap_unfold.
 Print Assumptions C11_iter_end_cap.
 Print Assumptions C11_cap_example.
+Print Assumptions C11_es_unfold.
+Print Assumptions C11_exact_size_correct.
+Print Assumptions C11_exact_size_capacity_refuted.
